@@ -13,7 +13,7 @@ TABLE = {
     "C04": (["eras", "bank", "zeroing", "corners", "align", "fuzz"], ["staking", "rates", "admission"], [1], True, "balances (per-asset supply is their column sum)"),
     "C06": (["dups", "corners", "gaps", "fuzz"], ["eras", "bank"], [1, 6, 9, 10], True, "balances, batch status, holding and relation rows"),
     "C07": (["gaps", "corners", "avgzero", "fuzz"], ["eras", "admission", "bank"], [1, 6, 7, 9], True, "balances, execution height and converted amounts"),
-    "C08": (["malformed", "dups", "corners", "gaps"], ["eras", "top100", "zerocollide", "bankmixed"], [13, 14], False, "which blocks apply"),
+    "C08": (["malformed", "dups", "corners", "gaps", "bank"], ["eras", "top100", "zerocollide", "bankmixed"], [13, 14], False, "which blocks apply"),
     "C09": (["gaps"], ["eras", "admission", "avgzero"], [1, 6, 7], True, "balances and converted amounts (pricing)"),
     "C11": (["eras", "corners", "fuzz"], ["top100", "rates", "staking", "zeroing"], [1, 6, 7, 11, 12], True, "PEG/pFCT balances, coinbase and burn history, pn_winners, pn_grade"),
     "C12": (["rates", "corners", "eras", "fuzz"], ["gaps", "staking"], [4, 6], True, "pn_rate rows and batch status"),
